@@ -231,8 +231,10 @@ MANIFEST_ENTRY = {
             "on exact rationals against expv / ExpFlow (+ inverse paths) for float32/float64, batches, every loop iteration j in [0,7].",
     "note": "Convergence as k grows: proved over the reals (Coquelicot; stdlib real-number axioms) for the scalar closed form "
             "(1 + h/2^k)^(2^k) -> exp h and hence entrywise for every diagonal generator (C11_convergence_scalar, "
-            "C11_convergence_diagonal_partial). Partial: convergence for generators with off-diagonal / translation part (matrix "
-            "exponential proper) and the second-order inverse consistency exp(v) o exp(-v) for smooth fields are explored numerically on "
+            "C11_convergence_diagonal_partial), and for every generator [diag(g) | h] WITH translation: all entries of the closed form "
+            "converge to those of the matrix exponential (translation column h phi1(g), phi1 = (e^g-1)/g), which is the time-one map of "
+            "the ODE x' = g x + h (C11_convergence_scaling_translation_2d/_3d, C11_limit_is_time_one_flow). Partial: convergence for "
+            "generators with off-diagonal entries in the linear part (matrix exponential proper) and the second-order inverse consistency exp(v) o exp(-v) for smooth fields are explored numerically on "
             "the implementation only (not proved). The ExpFlow module is traced (arguments handed to expv on all four call paths), and so is the flag StationaryVelocityFieldTransform gives it at construction and after grid_() / grid(). Trusted: Coq kernel, vm_compute, the model of "
             "F.grid_sample (Model/Sampler.v, validated by the correspondence), symtorch, float rounding outside the model.",
 }
